@@ -14,6 +14,7 @@
 import BklProofs.Lemmas.Files
 import BklProofs.Lemmas.FilesRename
 import BklProofs.Lemmas.C03Chain
+import BklProofs.Lemmas.C03Links
 namespace Bkl
 
 /-! ## the filename rule -/
@@ -912,7 +913,7 @@ example :
     have h1 : supportedExts.contains (extOf (baseOf ["w", "top.yaml"])) = true := by
       rw [extOf_eq]; decide
     rw [h1, if_pos rfl, rootOpen_eq]
-    have h2 : danglingFS.rootWalk [] linkFuel [] (relTo [] ["w", "top.yaml"]) = .ok ["w", "top.yaml"] := by
+    have h2 : danglingFS.rootWalk [] linkFuel 0 [] (relTo [] ["w", "top.yaml"]) = .ok ["w", "top.yaml"] := by
       decide
     simp only [h2]
     rfl
@@ -1300,5 +1301,103 @@ example :
       [["w"] ++ ["x.y.z.yaml"]] (by decide)
     rw [show loadFuel = 63 + 1 from rfl, h.2 hext 63 _ _ _ hfind hq]
     rfl
+
+/-! ## the symbolic-link budget of `os.Root`
+
+  `os.Root` follows at most `rootMaxSymlinks = 8` symbolic links in one operation; the ninth is
+  `ELOOP`.  The rooted walk counts the links it has followed (`links`; every `rootOpen`,
+  `rootOpenDir`, `rootExists`, `rootReadDir` starts at 0).  Helper definitions
+  (`BklProofs/Lemmas/C03Links.lean`): `c03l_Name t` — `t` is a plain single-component name
+  (`plainComp t`, `isAbsPath t = false`, `splitPath t = [t]`); `c03l_LinkChain fs d l k` — the
+  names `l 0, …, l k` are such names and, in the directory `d`, `l (i+1)` is a symbolic link to
+  `l i` for every `i < k` (the chain `l k → l (k-1) → … → l 1 → l 0`). -/
+
+/-- A chain of `k` file links ending at an entry that is not a link is followed to its end as
+    long as the budget allows: a walk that has already followed `links` links, with
+    `links + k ≤ rootMaxSymlinks`, opens `l k` as `d/l 0` (fuel `k + 2` is enough).  From
+    `links = 0` (every operation of the parser) this is any chain of at most 8 links. -/
+theorem C03_symlink_limit_ok (fs : FS) (root d : Comps) (l : Nat → String) (k : Nat) (n : FNode)
+    (hch : c03l_LinkChain fs d l k) (hl : fs.lstat (d ++ [l 0]) = some n)
+    (hn : n.isLink = false) (fuel links : Nat) (hb : links + k ≤ rootMaxSymlinks) :
+    fs.rootWalk root (fuel + k + 2) links d [l k] = .ok (d ++ [l 0]) :=
+  c03l_walk_ok hch hl hn fuel links hb
+
+/-- non-vacuity: `/r/l8 → l7 → … → l1 → f.yaml`, eight links from `links = 0` -/
+example : c03l_LinkChain c03l_fs ["r"] c03l_names 8 ∧
+    c03l_fs.lstat (["r"] ++ [c03l_names 0]) = some (.file (.ok [.map [("x", .int 1)]])) ∧
+    (FNode.file (.ok [.map [("x", .int 1)]])).isLink = false ∧ 0 + 8 ≤ rootMaxSymlinks ∧
+    c03l_fs.rootWalk ["r"] (0 + 8 + 2) 0 ["r"] ["l8"] = .ok ["r", "f.yaml"] :=
+  ⟨c03l_chain_le (by decide), c03l_end, rfl, by decide,
+    C03_symlink_limit_ok c03l_fs ["r"] ["r"] c03l_names 8 _ (c03l_chain_le (by decide)) c03l_end rfl
+      0 0 (by decide)⟩
+
+/-- Once `rootMaxSymlinks` links have been followed, stepping onto one more symbolic link is
+    refused (whatever its target). -/
+theorem C03_symlink_limit_exceeded (fs : FS) (root cur : Comps) (fuel : Nat) (c t : String)
+    (rest : List String) (hc : plainComp c = true)
+    (hl : fs.lstat (cur ++ [c]) = some (.link t)) :
+    fs.rootWalk root (fuel + 1) rootMaxSymlinks cur (c :: rest) = .error .other :=
+  rootWalk_step_link_limit hc hl (Nat.le_refl _)
+
+example : plainComp "l1" = true ∧ c03l_fs.lstat (["r"] ++ ["l1"]) = some (.link "f.yaml") :=
+  ⟨by decide, by decide⟩
+
+/-- Hence a chain of `k + 1` links that does not fit in what is left of the budget
+    (`rootMaxSymlinks < links + (k + 1)`) is refused, whatever the fuel and whatever follows:
+    from `links = 0`, any chain of 9 or more links. -/
+theorem C03_symlink_limit_exceeded_chain (fs : FS) (root d : Comps) (l : Nat → String) (k : Nat)
+    (hch : c03l_LinkChain fs d l (k + 1)) (fuel links : Nat) (rest : List String)
+    (hb : rootMaxSymlinks < links + (k + 1)) :
+    fs.rootWalk root fuel links d (l (k + 1) :: rest) = .error .other :=
+  c03l_walk_refused k hch fuel links rest hb
+
+/-- non-vacuity: `/r/l9 → l8 → … → l1 → f.yaml`, nine links from `links = 0`, fails … -/
+example : c03l_LinkChain c03l_fs ["r"] c03l_names (8 + 1) ∧ rootMaxSymlinks < 0 + (8 + 1) ∧
+    c03l_fs.rootWalk ["r"] linkFuel 0 ["r"] ["l9"] = .error .other :=
+  ⟨c03l_chain9, by decide,
+    C03_symlink_limit_exceeded_chain c03l_fs ["r"] ["r"] c03l_names 8 c03l_chain9 _ 0 [] (by decide)⟩
+
+/-- … although the unrooted `EvalSymlinks` (255 links in Go, `linkFuel` steps here) resolves it -/
+example : c03l_fs.resolve 12 [] ["r", "l9"] = some ["r", "f.yaml"] := by
+  have hs : ∀ i, i ≤ 9 → splitPath (c03l_names i) = [c03l_names i] :=
+    fun i hi => (c03l_names_name i hi).2.2
+  have ha : ∀ i, i ≤ 9 → isAbsPath (c03l_names i) = false :=
+    fun i hi => (c03l_names_name i hi).2.1
+  have step : ∀ i, i < 9 → ∀ fuel, c03l_fs.resolve (fuel + 1) ["r"] [c03l_names (i + 1)] =
+      c03l_fs.resolve fuel ["r"] [c03l_names i] := by
+    intro i hi fuel
+    have hp := ((plainComp_iff _).1 (c03l_names_name (i + 1) (by omega)).1)
+    rw [resolve_succ_cons, c03l_names_link i hi]
+    simp [hp.1, hp.2.1, hp.2.2, ha i (by omega), hs i (by omega)]
+  rw [resolve_step_plain (n := .dir) (by decide) (by decide) rfl]
+  show c03l_fs.resolve (10 + 1) ["r"] [c03l_names (8 + 1)] = _
+  rw [step 8 (by decide), step 7 (by decide), step 6 (by decide), step 5 (by decide),
+    step 4 (by decide), step 3 (by decide), step 2 (by decide), step 1 (by decide),
+    step 0 (by decide)]
+  decide
+
+/-- At the level of `p.root.Open`: the file at the end of a chain of `k` links beneath the root
+    directory itself is read exactly when `k ≤ rootMaxSymlinks`. -/
+theorem C03_symlink_limit_open (fs : FS) (root : Comps) (l : Nat → String) (k : Nat)
+    (docs : R (List Val)) (hch : c03l_LinkChain fs root l k)
+    (hl : fs.lstat (root ++ [l 0]) = some (.file docs)) :
+    (k ≤ rootMaxSymlinks → fs.rootOpen root [l k] = docs) ∧
+    (rootMaxSymlinks < k → fs.rootOpen root [l k] = .error .other) := by
+  constructor
+  · intro hk
+    have hk' : k ≤ 8 := hk
+    rw [rootOpen_eq, show linkFuel = (4094 - k) + k + 2 by simp only [linkFuel]; omega,
+      c03l_walk_ok hch hl rfl (4094 - k) 0 (by omega)]
+    simp only [hl]
+  · intro hk
+    obtain ⟨j, rfl⟩ : ∃ j, k = j + 1 := ⟨k - 1, by omega⟩
+    rw [rootOpen_eq, c03l_walk_refused j hch linkFuel 0 [] (by omega)]
+
+/-- non-vacuity: eight links are read, nine are not -/
+example : c03l_fs.rootOpen ["r"] ["l8"] = .ok [.map [("x", .int 1)]] ∧
+    c03l_fs.rootOpen ["r"] ["l9"] = .error .other :=
+  ⟨(C03_symlink_limit_open c03l_fs ["r"] c03l_names 8 _ (c03l_chain_le (by decide)) c03l_end).1
+      (by decide),
+    (C03_symlink_limit_open c03l_fs ["r"] c03l_names 9 _ c03l_chain9 c03l_end).2 (by decide)⟩
 
 end Bkl
